@@ -159,9 +159,12 @@ func gen(r *vh.Rand, tier string, n int, emit func(vh.Case)) {
 				}
 			default:
 				switch {
-				case x < 35 && g.write:
+				case x < 30 && g.write:
 					val++
 					op = fmt.Sprintf("write %d %d", w, val)
+				case x < 40 && g.write:
+					// write, then let the DagModifier sync on its own, then (usually next) Flush with the descriptor kept open
+					op = vh.Pick(r, []string{fmt.Sprintf("seek %d", w), fmt.Sprintf("trunc %d", w), fmt.Sprintf("seek %d", w)})
 				case x < 65:
 					op = fmt.Sprintf("flush %d %s", w, park)
 					g.parked = park != "-"
